@@ -310,12 +310,16 @@ def X_execute_task_tail(ctx):
                 and callee_matches(e.d['term'][1], '::contains')
                 and mentions_field(e.d['term'][2][0], 'TransactionResult.write_set')
                 and mentions_field(e.d['term'][2][1], 'IncarnationAccesses.write_set')]
-        if not has_prev or any(e.d['outcome'] == 'false' for e in cont):
+        it_new = [e for e in p.events if e.kind == 'atom' and e.d['term'][0] == 'discr' and e.d['term'][1][0] == 'call' and e.d['term'][1][1].endswith('::next')
+                  and mentions_field(e.d['term'][1], 'IncarnationAccesses.write_set') and not mentions_field(e.d['term'][1], 'TransactionResult.write_set')]
+        empty_new = bool(it_new) and it_new[0].d['outcome'] == 'None'
+        subset_shown = empty_new or (any(e.d['outcome'] == 'true' for e in cont) and not any(e.d['outcome'] == 'false' for e in cont))
+        if not has_prev or not subset_shown:
             bad.append(p)
         if has_prev and any(e.d['outcome'] == 'true' for e in cont):
             good_witness += 1
     ctx.ob('N4', f, 'direct-validation-only-without-new-location', not bad,
-           f'{len(bad)} path(s) return the validation task although no previous result exists or a written location is not in the previous write set: ' + (describe(bad[0], 20) if bad else ''),
+           f'{len(bad)} path(s) return the validation task although no previous result exists or membership of every written location in the previous write set was not established (HashSet::contains per location): ' + (describe(bad[0], 20) if bad else ''),
            site=f.loc(f.b['lo']),
            what='a new write location may invalidate higher transactions that already validated (they missed a predecessor); validation must rewind to txid')
     ctx.ob('N4', f, 'anchor:new-location-test', good_witness >= 1,
